@@ -85,6 +85,32 @@ PROPS["C10"] = {
     "assumptions": [TIME_RANGE],
 }
 
+PROPS["C05"] = {
+    "harnesses": [
+        {"pkg": ".", "dir": "s3db", "entry": "VerifH_C05_txn", "reach": ["end", "commit-failed"],
+         "quick": {"params": "maxstmts=2", "workers": 16, "timeout": 900},
+         "thorough": {"params": "maxstmts=3", "workers": 16, "timeout": 3000}},
+    ],
+    "bounds": {"quick": "table of 4 committed keys (entries_per_node 2, depth 2); BEGIN, 1..2 statements from {insert fresh, insert duplicate, update, delete, insert growing the tree}, then ROLLBACK | COMMIT | COMMIT failing at a symbolic storage request followed by xRollback",
+               "thorough": "1..3 statements"},
+    "outside": "SQLite's statement journal; a failing statement is modelled as SQLite does it (the statement changed nothing)",
+    "assumptions": [TIME_RANGE],
+}
+
+PROPS["C17"] = {
+    "harnesses": [
+        {"pkg": "kv", "dir": "kv", "entry": "VerifH_C17_join", "quick": {"workers": 8, "timeout": 900}},
+        {"pkg": "kv", "dir": "kv", "entry": "VerifH_C17_set",
+         "quick": {"params": "ops=3", "workers": 16, "timeout": 900},
+         "thorough": {"params": "ops=4", "workers": 16, "timeout": 3000}},
+        {"pkg": "kv", "dir": "kv", "entry": "VerifH_C17_merge", "quick": {"workers": 16, "timeout": 900}},
+    ],
+    "bounds": {"quick": "join laws over three entries with symbolic times/tombstones; 3 Set/Tombstone operations on one key with symbolic distinct times in the three merge modes, commit and re-open; two writers + base merged by a third open, TraceHistory",
+               "thorough": "4 operations"},
+    "outside": "gob/JSON byte formats (opaque codec); Diff is covered through s3db_changes (C12)",
+    "assumptions": [TIME_RANGE, "distinct times per key (the property's precondition)"],
+}
+
 # Properties not (yet) claimed, each with the reason.  Kept current by hand.
 NOT_APPLICABLE = {
     "C%02d" % i: "check not built yet in this session (breadth-first build order, DESIGN §9); no claim is made" for i in range(1, 21)
